@@ -5,6 +5,7 @@ package storelab
 import (
 	"database/sql"
 	"fmt"
+	"hash/crc32"
 	"os"
 	"path/filepath"
 	"sort"
@@ -64,13 +65,26 @@ var Kinds = []string{"memory", "file", "filenosync", "sql"}
 // SettingsFor builds the settings text for a set of sessions sharing one directory/database.
 func SettingsFor(kind, base string, ids []quickfix.SessionID, driver string) string {
 	var b strings.Builder
+	sessionExtra := ""
 	b.WriteString("[DEFAULT]\n")
 	switch kind {
 	case "file", "filenosync":
 		b.WriteString("FileStorePath=" + filepath.Join(base, "fs") + "\n")
-		if kind == "filenosync" {
+		// In half of the directories the syncing mode is what the [SESSION] section says, against the opposite
+		// value in [DEFAULT] (a session setting overrides the default).
+		override := ""
+		if sum := crc32.ChecksumIEEE([]byte(base)); sum%2 == 0 {
+			if kind == "filenosync" {
+				b.WriteString("FileStoreSync=Y\n")
+				override = "FileStoreSync=N\n"
+			} else {
+				b.WriteString("FileStoreSync=N\n")
+				override = "FileStoreSync=Y\n"
+			}
+		} else if kind == "filenosync" {
 			b.WriteString("FileStoreSync=N\n")
 		}
+		sessionExtra = override
 	case "sql":
 		if driver == "" {
 			driver = "sqlite3"
@@ -78,7 +92,7 @@ func SettingsFor(kind, base string, ids []quickfix.SessionID, driver string) str
 		b.WriteString("SQLStoreDriver=" + driver + "\nSQLStoreDataSourceName=" + filepath.Join(base, "db.sqlite") + "\n")
 	}
 	for _, id := range ids {
-		b.WriteString("[SESSION]\nBeginString=" + id.BeginString + "\nSenderCompID=" + id.SenderCompID + "\nTargetCompID=" + id.TargetCompID + "\n")
+		b.WriteString("[SESSION]\nBeginString=" + id.BeginString + "\nSenderCompID=" + id.SenderCompID + "\nTargetCompID=" + id.TargetCompID + "\n" + sessionExtra)
 		for k, v := range map[string]string{"SenderSubID": id.SenderSubID, "SenderLocationID": id.SenderLocationID, "TargetSubID": id.TargetSubID, "TargetLocationID": id.TargetLocationID, "SessionQualifier": id.Qualifier} {
 			if v != "" {
 				b.WriteString(k + "=" + v + "\n")
